@@ -2,6 +2,9 @@ import MidnightZK.Proofs.C20.Ipa
 import MidnightZK.Proofs.C20.IpaPoly
 import MidnightZK.Proofs.C20.Gadget
 import MidnightZK.Proofs.C20.Acc
+import MidnightZK.Proofs.C20.Verify
+import MidnightZK.Proofs.C20.MultiOpen
+import MidnightZK.Model.C20.VerifyIO
 /-!
 # C20 — recursion and aggregation accept exactly the valid inner proofs
 Property theorems (helper lemmas live in `MidnightZK/Proofs/C20`).
@@ -263,6 +266,85 @@ theorem ipa_base_alteration (pre post bases2 : List G) (B δ res1 res2 : G) (r :
   rw [key, key, hidx]
   module
 
+
+/-- Linearity of `inner_product` in the scalar vector (equal lengths). -/
+private theorem innerProduct_zipWith_add : ∀ (c d : List F) (b : List G), c.length = d.length →
+    innerProduct (List.zipWith (· + ·) c d) b = innerProduct c b + innerProduct d b
+  | [], [], b, _ => by simp [innerProduct]
+  | [], _ :: _, _, h => by simp at h
+  | _ :: _, [], _, h => by simp at h
+  | x :: c, y :: d, [], _ => by simp [innerProduct]
+  | x :: c, y :: d, g :: b, h => by
+    have ih := innerProduct_zipWith_add c d b (by simpa using h)
+    simp only [List.zipWith_cons_cons, innerProduct_cons, ih]
+    module
+
+/-- Un-folding one round (the step on which the extractor of the argument rests): an opening `s'`
+of the statement AFTER a round with challenge `u` — bases `u·b_hi + u⁻¹·b_lo` as `ipa_prove` /
+`ipa_verify` fold them — is an opening of the same point with respect to the bases BEFORE the
+round, with the explicit coefficient vector `u⁻¹·s' ++ u·s'`. For every length and every pair
+`(u, ui)` (no invertibility needed). -/
+theorem ipa_round_unfold (bLo bHi : List G) (s' : List F) (u ui : F) (hb : bLo.length = bHi.length)
+    (hs : s'.length = bLo.length) :
+    innerProduct s' (fold u bHi ui bLo) = innerProduct (s'.map (· * ui) ++ s'.map (· * u)) (bLo ++ bHi) := by
+  rw [innerProduct_fold_right u ui s' bHi bLo hb.symm,
+    innerProduct_append _ _ _ _ (by rw [List.length_map, hs]), add_comm]
+
+/-- Special soundness of ONE round, algebraic part (`ipa_sound_algebraic` for a round): let
+`(L, R)` be the pair sent in a round on the statement `(P, b_lo ++ b_hi)`, and suppose three
+continuations with challenges `u₁, u₂, u₃` are accepted, i.e. the prover opens the folded
+statements `P + uᵢ²·L + uᵢ⁻²·R = <sᵢ, uᵢ·b_hi + uᵢ⁻¹·b_lo>` (the relation `ipa_fold_invariant`
+maintains and the final MSM of `ipa_verify` checks). Then for ANY weights `λᵢ` the combination
+`(Σλᵢ)·P + (Σλᵢuᵢ²)·L + (Σλᵢuᵢ⁻²)·R` is opened, with respect to the bases before the round, by
+the explicit vector `Σ λᵢ·(uᵢ⁻¹·sᵢ ++ uᵢ·sᵢ)`. With `Σλᵢ = 1, Σλᵢuᵢ² = 0, Σλᵢuᵢ⁻² = 0` (solvable
+when the `uᵢ²` are distinct: a Vandermonde system, see the example) this is an opening of `P`
+itself: a consistent witness for the previous round; other weights open `L` and `R`.
+That the `uᵢ` are hash outputs the prover cannot choose (forking / random oracle) and that two
+different openings of one point break the discrete logarithm is the assumed part. -/
+theorem ipa_sound_algebraic_round (bLo bHi : List G) (P L R : G)
+    (u1 ui1 u2 ui2 u3 ui3 : F) (s1 s2 s3 : List F) (l1 l2 l3 : F)
+    (hb : bLo.length = bHi.length) (h1 : s1.length = bLo.length) (h2 : s2.length = bLo.length)
+    (h3 : s3.length = bLo.length)
+    (a1 : innerProduct s1 (fold u1 bHi ui1 bLo) = P + ((u1 * u1) • L + (ui1 * ui1) • R))
+    (a2 : innerProduct s2 (fold u2 bHi ui2 bLo) = P + ((u2 * u2) • L + (ui2 * ui2) • R))
+    (a3 : innerProduct s3 (fold u3 bHi ui3 bLo) = P + ((u3 * u3) • L + (ui3 * ui3) • R)) :
+    (l1 + l2 + l3) • P + (l1 * (u1 * u1) + l2 * (u2 * u2) + l3 * (u3 * u3)) • L +
+        (l1 * (ui1 * ui1) + l2 * (ui2 * ui2) + l3 * (ui3 * ui3)) • R =
+      innerProduct
+        (List.zipWith (· + ·) (List.zipWith (· + ·)
+          ((s1.map (· * ui1) ++ s1.map (· * u1)).map (fun x => l1 * x))
+          ((s2.map (· * ui2) ++ s2.map (· * u2)).map (fun x => l2 * x)))
+          ((s3.map (· * ui3) ++ s3.map (· * u3)).map (fun x => l3 * x)))
+        (bLo ++ bHi) := by
+  rw [ipa_round_unfold bLo bHi s1 u1 ui1 hb h1] at a1
+  rw [ipa_round_unfold bLo bHi s2 u2 ui2 hb h2] at a2
+  rw [ipa_round_unfold bLo bHi s3 u3 ui3 hb h3] at a3
+  rw [innerProduct_zipWith_add _ _ _ (by simp [h1, h2, h3]),
+    innerProduct_zipWith_add _ _ _ (by simp [h1, h2]),
+    innerProduct_map_mul_left, innerProduct_map_mul_left, innerProduct_map_mul_left, a1, a2, a3]
+  module
+
+/-- Two accepted continuations of the same `(L, R)` with different challenges are consistent:
+their un-folded openings differ exactly by `(u₁² − u₂²)·L + (u₁⁻² − u₂⁻²)·R`. -/
+theorem ipa_round_two_transcripts (bLo bHi : List G) (P L R : G) (u1 ui1 u2 ui2 : F) (s1 s2 : List F)
+    (hb : bLo.length = bHi.length) (h1 : s1.length = bLo.length) (h2 : s2.length = bLo.length)
+    (a1 : innerProduct s1 (fold u1 bHi ui1 bLo) = P + ((u1 * u1) • L + (ui1 * ui1) • R))
+    (a2 : innerProduct s2 (fold u2 bHi ui2 bLo) = P + ((u2 * u2) • L + (ui2 * ui2) • R)) :
+    innerProduct (s1.map (· * ui1) ++ s1.map (· * u1)) (bLo ++ bHi) -
+        innerProduct (s2.map (· * ui2) ++ s2.map (· * u2)) (bLo ++ bHi) =
+      (u1 * u1 - u2 * u2) • L + (ui1 * ui1 - ui2 * ui2) • R := by
+  rw [← ipa_round_unfold bLo bHi s1 u1 ui1 hb h1, ← ipa_round_unfold bLo bHi s2 u2 ui2 hb h2, a1, a2]
+  module
+
+/-- Non-vacuity: the acceptance hypotheses hold for the honest prover. Statement `P = <[3,5],[7,11]> = 76`
+over `ℤ`, `L = 3·11 = 33`, `R = 5·7 = 35`; challenge `u = ui = 1` gives `s' = [8]` and
+`<[8], [11 + 7]> = 144 = 76 + 33 + 35`; challenge `u = ui = -1` gives `s' = [-8]`, folded base `-18`.
+(Over a field the weights with `Σλ = 1, Σλu² = 0, Σλu⁻² = 0` exist as soon as the three `u²` are
+distinct: the matrix with rows `(1, u², u⁻²)` is a Vandermonde matrix after scaling each row by `u²`.) -/
+example : innerProduct (F := ℤ) (G := ℤ) [8] (fold (1 : ℤ) [11] 1 [7]) = 76 + ((1 * 1) • 33 + (1 * 1) • 35) ∧
+    innerProduct (F := ℤ) (G := ℤ) [-8] (fold (-1 : ℤ) [11] (-1) [7]) = 76 + (((-1) * (-1)) • 33 + ((-1) * (-1)) • 35) := by
+  decide
+
 /-- Prover and verifier of the argument perform the same sequence of transcript operations
 (absorb all bases and both claims, squeeze `r`, then per round two group elements and a squeeze,
 then the final scalar), for every length: they derive the same challenges. -/
@@ -490,5 +572,267 @@ theorem expose_acc_binds (enc : G → List F) (n : Nat) (hn : ∀ a, (enc a).len
   rw [b1, b2, r1'.1, r3'.1, fixed_eq _ _ h3 r2.1, fixed_eq _ _ h6 r3'.2]
 
 end Expose
+
+/-! ## Part 4: the arithmetic the in-circuit verifier performs on the evaluations
+
+Model: `Model/C20/Verify.lean` (mirror of `verifier_gadget.rs: verify_algebraic_constraints`,
+`expressions/*.rs`, `vanishing.rs`, `utils.rs`), compared with the off-circuit model of C02
+(`Model/C02/Identities.lean`, mirror of `proofs/src/plonk/{verifier,mod,permutation,lookup,trash}.rs`
+and `vanishing/verifier.rs`), both on canonical naturals modulo any `p > 0`. -/
+section Verify
+open MidnightZK.C02 MidnightZK.C02.Ids MidnightZK.C20.V
+
+/-- `eval_expression` of the gadget and `Expression::evaluate` with the closures of
+`evaluate_identities` return the same value on every expression the former accepts (it panics on
+`Expression::Challenge`), for every environment of evaluations. -/
+theorem gadget_eval_expression_eq (e : Env) (ex : Expr) (v : ℕ) (h : gEvalExpr e ex = some v) :
+    v = evalQ e ex := gEvalExpr_eq e ex v h
+
+/-- The permutation identities: `permutation_expressions` (in-circuit: `l_0 − l_0·z`,
+`l_last·(z² − z)` by `add_and_mul`, product rule by `linear_combination`s and a running
+`current_delta`) yields exactly the values of `permutation.rs: expressions` (off-circuit), in the
+same order, for every number of column sets, all evaluations and challenges, wherever it does not
+panic (`unwrap` of a missing last evaluation). -/
+theorem gadget_perm_ids_eq {p : ℕ} [NeZero p] (f : Fld) (e : Env) (hp : e.p = p) (permCommon : List ℕ)
+    (sets : List PermSet) (L : Lagrange) (ch : Challenges) (v : List ℕ)
+    (h : gPermIds f e permCommon sets L ch.beta ch.gamma ch.x = some v) :
+    v = (permIds f e permCommon sets L ch).map (·.2) := gPermIds_eq f e hp permCommon sets L ch v h
+
+/-- The five lookup identities per lookup, all lookups: in-circuit = off-circuit, in order. -/
+theorem gadget_lookup_ids_eq {p : ℕ} [NeZero p] (e : Env) (hp : e.p = p) (L : Lagrange) (ch : Challenges)
+    (evs : List LookupEvals) (v : List ℕ) (h : gLookupIds e L ch.theta ch.beta ch.gamma evs = some v) :
+    v = (lookupIds e L ch evs).map (·.2) := gLookupIds_eq e hp L ch evs v h
+
+/-- The trash identity: `compressed − trash + q·trash` (one `add_and_mul` in-circuit) equals
+`compressed − (1 − q)·trash` (off-circuit), for every trash argument. -/
+theorem gadget_trash_ids_eq {p : ℕ} [NeZero p] (e : Env) (hp : e.p = p) (ch : Challenges) (evs : List ℕ)
+    (v : List ℕ) (h : gTrashIds e ch.trash evs = some v) : v = (trashIds e ch evs).map (·.2) :=
+  gTrashIds_eq e hp ch evs v h
+
+/-- `expected_h_eval`: `try_reduce(ids, h·y + v) / (xn − 1)` (in-circuit, `div`) equals
+`ids.fold(0, h·y + v)·(xn − 1)⁻¹` (off-circuit) for every non-empty identity list. -/
+theorem gadget_expected_h_eq {p : ℕ} [NeZero p] (y xn : ℕ) (ids : List ℕ) (h : ℕ)
+    (hh : gExpectedH p y xn ids = some h) : h = expectedH p y xn ids := gExpectedH_eq y xn ids h hh
+
+/-- The Lagrange values: `evaluate_lagrange_polynomials` over `-(bf+1)..1` with
+`l_blind = sum(..)` (in-circuit) equals `l_i_range` + the sums of `evaluate_identities`
+(off-circuit), on every domain whose `omega` is a `2^k`-th root of unity with Fermat inverse
+(`DomainOK`), provided the blinding rows fit in the domain. -/
+theorem gadget_lagrange_eq (f : Fld) [NeZero f.p] (cs : VCS) (x : ℕ) (hd : DomainOK f cs.k)
+    (hb : cs.blinding + 1 ≤ 2 ^ cs.k) : gLagrange f cs x = lagrange f cs x (xnOf f.p cs.k x) :=
+  gLagrange_eq f cs x hd hb
+
+instance : NeZero V.fld.p := ⟨by decide⟩
+
+/-- `DomainOK` holds for the generated constants of the BLS12-381 scalar field
+(`Gen/C20Consts.lean`, regenerated from `curves/src/bls12_381/fq.rs` on every run) and every
+domain size the field supports: `omega = ROOT_OF_UNITY^(2^(S−k))` has order dividing `2^k` and
+`omega^(p−2)` is its inverse. Kernel evaluation. -/
+theorem domainOK_bls : ∀ k, k ≤ 32 → DomainOK V.fld k := by
+  have key : ∀ k, k < 33 →
+      powMod (omegaOf V.fld k) (2 ^ k) V.fld.p = 1 ∧
+        fmul V.fld.p (omegaOf V.fld k) (invMod (omegaOf V.fld k) V.fld.p) = 1 := by decide +kernel
+  intro k hk
+  obtain ⟨h1, h2⟩ := key k (by omega)
+  constructor
+  · have := cast_powMod (p := V.fld.p) (omegaOf V.fld k) (2 ^ k)
+    rw [h1, Nat.cast_one] at this
+    exact this.symm
+  · have := cast_fmul (p := V.fld.p) (omegaOf V.fld k) (invMod (omegaOf V.fld k) V.fld.p)
+    rw [h2, Nat.cast_one] at this
+    exact this.symm
+
+/-- **In-circuit = off-circuit, identity level** (first half of DESIGN §7
+`in_circuit_acc_eq_off_circuit`): for every constraint system, every assignment of the transcript
+scalars (evaluations read from the proof, challenges), every plain instance, whenever the
+gadget's computation goes through (`gVerifyIds … = some r`: no panic, no synthesis error), the
+Lagrange values, `x^n`, EVERY identity value in order and `expected_h_eval` it computes are those
+of the off-circuit `verify_algebraic_constraints` (`MidnightZK.C02.Ids.verifyIds`, the model
+tied value by value to the real verifier by C02) on the same scalars and the same instance
+evaluations. -/
+theorem gadget_ids_eq_off_circuit (f : Fld) [NeZero f.p] (cs : VCS) (nCommitted : ℕ) (plain : List (List ℕ))
+    (committedEval : ℕ → ℕ) (com : CommonEvals) (ch : Challenges) (ev : ProofEvals) (r : GFolded)
+    (hd : DomainOK f cs.k) (hb : cs.blinding + 1 ≤ 2 ^ cs.k)
+    (h : gVerifyIds f cs nCommitted plain committedEval com ch ev = some r) :
+    let off := verifyIds f cs com ch [{ ev with inst := r.instEvals }]
+    r.lag = off.lag ∧ r.xn = off.xn ∧ r.ids = off.ids.map (·.2) ∧ r.h = off.h :=
+  gVerifyIds_eq f cs nCommitted plain committedEval com ch ev r hd hb h
+
+/-- A small constraint system: one gate `a0·f0 − i0`, one permutation set over `(a0, i0)`, one
+instance query, `k = 3`, two blinding rows. -/
+def exampleVCS : VCS :=
+  { gates := [[.sum (.prod (.advice 0 0) (.fixed 0 0)) (.neg (.inst 0 0))]], lookups := [], trash := [],
+    permCols := [(.advice, 0), (.inst, 0)], adviceQueries := [(0, 0)], fixedQueries := [(0, 0)],
+    instanceQueries := [(0, 0)], degree := 4, blinding := 2, k := 3 }
+
+/-- Non-vacuity of `gadget_ids_eq_off_circuit`: on `exampleVCS` with arbitrary small scalars the
+gadget's computation goes through (4 identity values) and the domain hypotheses hold. -/
+example : ((gVerifyIds V.fld exampleVCS 0 [[5, 6]] (fun _ => 0) { fixed := [7], permCommon := [11, 13] }
+      { theta := 2, beta := 3, gamma := 4, trash := 5, y := 6, x := 9, user := [] }
+      { advice := [8], inst := [], permSets := [{ eval := 21, next := 22, last := none }], lookups := [], trash := [] }).map
+        (·.ids.length)) = some 4 ∧ exampleVCS.blinding + 1 ≤ 2 ^ exampleVCS.k := by
+  decide +kernel
+
+
+/-- The instance evaluations of the plain instance columns: `inner_product(instances,
+l_i_s[offset..])` over `evaluate_lagrange_polynomials((-max_rot)..(max_len + |min_rot|))` with the
+minimum / maximum over the queries themselves (in-circuit) equals `compute_inner_product` over
+`l_i_range` with the fold of `(min, max)` started at `(0, 0)` (off-circuit), query by query, for all
+instance columns and rotations within the domain — wherever the gadget does not panic. -/
+theorem gadget_instance_evals_eq (f : Fld) [NeZero f.p] (cs : VCS) (nc x : ℕ) (plain : List (List ℕ))
+    (cev : ℕ → ℕ) (v : List ℕ) (hd : DomainOK f cs.k)
+    (hrot : ∀ q ∈ cs.instanceQueries, q.2 ≤ ((2 ^ cs.k : ℕ) : ℤ))
+    (h : gInstanceEvals f cs nc x plain cev = some v) :
+    v = instanceEvals f cs nc x (xnOf f.p cs.k x) ((plain.map List.length).foldl max 0) plain cev :=
+  gInstanceEvals_eq f cs nc x plain cev v hd hrot h
+
+/-- **In-circuit = off-circuit, identity level, nothing assumed about the instance evaluations**:
+as `gadget_ids_eq_off_circuit`, with the off-circuit side computing the instance evaluations
+itself (`instanceEvals`, as `verifier.rs: verify_algebraic_constraints` does): instance
+evaluations, Lagrange values, `x^n`, every identity value in order and `expected_h_eval` of the
+gadget are those of the off-circuit verifier, for every constraint system whose query rotations
+lie within the domain, every plain instance, every transcript-scalar assignment. -/
+theorem in_circuit_ids_eq_off_circuit (f : Fld) [NeZero f.p] (cs : VCS) (nCommitted : ℕ) (plain : List (List ℕ))
+    (committedEval : ℕ → ℕ) (com : CommonEvals) (ch : Challenges) (ev : ProofEvals) (r : GFolded)
+    (hd : DomainOK f cs.k) (hb : cs.blinding + 1 ≤ 2 ^ cs.k)
+    (hrot : ∀ q ∈ cs.instanceQueries, q.2 ≤ ((2 ^ cs.k : ℕ) : ℤ))
+    (h : gVerifyIds f cs nCommitted plain committedEval com ch ev = some r) :
+    let inst := instanceEvals f cs nCommitted ch.x (xnOf f.p cs.k ch.x) ((plain.map List.length).foldl max 0) plain committedEval
+    let off := verifyIds f cs com ch [{ ev with inst := inst }]
+    r.instEvals = inst ∧ r.lag = off.lag ∧ r.xn = off.xn ∧ r.ids = off.ids.map (·.2) ∧ r.h = off.h :=
+  gVerifyIds_eq_full f cs nCommitted plain committedEval com ch ev r hd hb hrot h
+
+/-- Non-vacuity of the rotation hypothesis on `exampleVCS`. -/
+example : ∀ q ∈ exampleVCS.instanceQueries, q.2 ≤ ((2 ^ exampleVCS.k : ℕ) : ℤ) := by decide
+
+/-- The literal the model uses for the fixed base of the negated generator is the key the code
+uses at all of its five sites (`kzg.rs`, `accumulator.rs` twice, `mod.rs` twice; regenerated). A
+site that binds another name breaks this. -/
+theorem neg_g_key_consistent : Consts.negGKeys = List.replicate 5 "-G" := by decide
+
+/-- `get_point` of the gadget opens a query of rotation `-1 / 0 / 1` at `x·ω⁻¹ / x / x·ω`
+(regenerated from `verifier_gadget.rs`): exactly the rotations `gadgetSupported` accepts, each
+mapped to itself (the model evaluates the point of rotation `r` as `x·ω^r`). -/
+theorem get_point_arms_generated : Consts.getPointArms = [(-1, -1), (0, 0), (1, 1)] := by decide
+
+/-- The hypothesis `gVerifyIds … = some r` of `gadget_ids_eq_off_circuit` is a real restriction: for
+a constraint system without instance queries the gadget panics (`.min().unwrap()` in the
+`instance_evals` block — known finding `gadget-fails:no-instance-query`), although the off-circuit
+verifier handles it (`verifyIds` is total). -/
+theorem gadget_needs_instance_query :
+    gVerifyIds V.fld
+      { gates := [[.prod (.advice 0 0) (.fixed 0 0)]], lookups := [], trash := [], permCols := [(.advice, 0)],
+        adviceQueries := [(0, 0)], fixedQueries := [(0, 0)], instanceQueries := [], degree := 4, blinding := 2, k := 3 }
+      0 [] (fun _ => 0) { fixed := [7], permCommon := [11] }
+      { theta := 2, beta := 3, gamma := 4, trash := 5, y := 6, x := 9, user := [] }
+      { advice := [8], inst := [], permSets := [{ eval := 21, next := 22, last := none }], lookups := [], trash := [] } = none := by
+  decide +kernel
+
+/-! ### the multi-opening: the accumulator as formal linear combinations over base identifiers
+
+Model: `Model/C20/MultiOpen.lean` (`kzg.rs: multi_prepare`, `msm.rs`, `vanishing.rs`, and
+`accumulator.rs: from_dual_msm` over `MidnightZK.C14.prepareGroups`). Scalars in any field. -/
+
+variable {K : Type} [Field K] [DecidableEq K]
+
+/-- **In-circuit = off-circuit, accumulator level** (second half of DESIGN §7
+`in_circuit_acc_eq_off_circuit`, final-MSM part): the right-hand side the gadget assembles with
+`AssignedMsm::scale` / `add_msm` —
+`Σᵢ x4ⁱ·(Σⱼ x1ʲ·MSM(C_ij)) + x4ˢ·f_com − v·G + x3·π`, where `MSM(C)` is one variable term, one
+NAMED fixed-base term (`{vk}_fixed_com_i`, `{vk}_perm_com_i`) or the quotient commitment
+`Σ sfʲ·h_j` — is the MSM that `Accumulator::from_dual_msm` extracts from the off-circuit term
+list `msm_inner_product(q_coms ++ [f_com], powers(x4)) ++ [(x3, π), (v, −G)]`: same variable bases
+in the same order with the same scalars, and for EVERY fixed-base name the same total scalar
+(`MsmEq`). For every grouping of the commitments into point sets, every number of quotient
+pieces ≥ 1, all power vectors, `v`, `x3`, and every commitment table containing the entries used.
+`process_msm` does not hit its assertion (second component). -/
+theorem in_circuit_final_msm_eq_off_circuit (names : Names) (tbl : List TEntry) (sf : K) (n : ℕ)
+    (cs : List (List C01.Com)) (pw1 pw4 : List K) (v x3 : K)
+    (hc : ∀ set ∈ cs, ∀ c ∈ set, ∀ e ∈ entriesOf names (n + 1) c, e ∈ tbl) :
+    let inRhs := ((gMsmInnerProduct (cs.map (fun set => gMsmInnerProduct (set.map (comMsmOf names (hCommitment sf (n + 1)))) pw1) ++
+          [fromTerm 1 VBase.f]) pw4).addMsm (fromFixedTerm v "-G")).addMsm ((fromTerm 1 VBase.pi : GMsm K).scale x3)
+    let offTermsAll := C14.msmInnerProduct (cs.map (fun set => C14.msmInnerProduct (set.map (offTerms names tbl sf (n + 1))) pw1) ++
+          [[((1 : K), C14.Base.f)]]) pw4 ++ [(x3, C14.Base.pi), (v, C14.Base.negG)]
+    (∃ m, processMsm (decodeOf tbl) offTermsAll = some m ∧ MsmEq inRhs m) := by
+  intro inRhs offTermsAll
+  exact ⟨_, processMsm_final names tbl sf (n + 1) cs pw1 pw4 v x3 hc, final_rhs_eq names tbl sf n cs pw1 pw4 v x3 hc⟩
+
+/-- Non-vacuity: one set with an advice commitment, a fixed commitment and the quotient
+commitment (two pieces) over `ℚ`; the table lists exactly the entries used. -/
+example : ∀ set ∈ [[C01.Com.advice 0 0, C01.Com.fixed 3, C01.Com.h]], ∀ c ∈ set,
+    ∀ e ∈ entriesOf (namesOf "vk") (1 + 1) c,
+      e ∈ [TEntry.var (.com (.advice 0 0)), TEntry.fixed "vk_fixed_com_3", TEntry.var (.hPiece 0), TEntry.var (.hPiece 1)] := by
+  decide
+
+/-- `MsmEq` is what the exposure as public input sees when the fixed-base lists have the same
+keys: it is reflexive, symmetric, transitive and respected by `scale` / `add_msm`, so the
+equality propagates through `AssignedAccumulator::accumulate`. -/
+theorem msmEq_congr (a a' b b' : GMsm K) (r : K) (h : MsmEq a a') (h' : MsmEq b b') :
+    MsmEq (a.accumulateWithR b r) (a'.accumulateWithR b' r) :=
+  MsmEq.addMsm h (MsmEq.scale h' r)
+
+
+/-- Both sides of two accumulators agree in the sense of `MsmEq`. -/
+def AccEq (a b : Acc K VBase) : Prop := MsmEq a.lhs b.lhs ∧ MsmEq a.rhs b.rhs
+
+private theorem accumulateLoopIn_congr : ∀ (l l' : List (Acc K VBase × K)),
+    List.Forall₂ (fun x y => AccEq x.1 y.1 ∧ x.2 = y.2) l l' →
+    ∀ acc acc' : Acc K VBase, AccEq acc acc' → AccEq (accumulateLoopIn acc l) (accumulateLoopIn acc' l') := by
+  intro l l' h
+  induction h with
+  | nil => intro acc acc' ha; exact ha
+  | cons hxy _ ih =>
+    intro acc acc' ha
+    obtain ⟨⟨h1, h2⟩, hr⟩ := hxy
+    simp only [accumulateLoopIn]
+    rw [hr]
+    exact ih _ _ ⟨MsmEq.addMsm ha.1 (MsmEq.scale h1 _), MsmEq.addMsm ha.2 (MsmEq.scale h2 _)⟩
+
+private theorem forall2_zip_same (t t' : List (Acc K VBase)) (ps : List K) (h : List.Forall₂ AccEq t t') :
+    List.Forall₂ (fun x y => AccEq x.1 y.1 ∧ x.2 = y.2) (t.zip ps) (t'.zip ps) := by
+  induction h generalizing ps with
+  | nil => simp
+  | cons hab _ ih =>
+    cases ps with
+    | nil => simp
+    | cons q ps => exact List.Forall₂.cons ⟨hab, rfl⟩ (ih ps)
+
+/-- **Aggregation of `k` inner proofs** (`LightAggregator`: the circuit calls
+`AssignedAccumulator::accumulate` on the `k` accumulators returned by `VerifierGadget::prepare`,
+`aggregate_proofs` / `verify` call `Accumulator::accumulate` on the `k` off-circuit ones, in the
+same order, with powers `r⁰, r¹, …` of the same hash output): if every inner in-circuit
+accumulator agrees with its off-circuit counterpart (`AccEq`: the conclusion of
+`in_circuit_final_msm_eq_off_circuit` per proof), the aggregated accumulators agree, for EVERY
+number of proofs `k ≥ 1` and every `r`; for `k = 0` both index `accs[0]` (panic). Together with
+`acc_accumulate_preserves_valid` the aggregate is valid when all inner ones are. -/
+theorem aggregate_acc_eq_accumulate (accs accs' : List (Acc K VBase)) (r : K) (h : List.Forall₂ AccEq accs accs') :
+    match Acc.accumulateIn accs r, Acc.accumulate accs' r with
+    | some a, some b => AccEq a b
+    | none, none => True
+    | _, _ => False := by
+  rw [(in_circuit_acc_eq_off_circuit_partial accs' r).1]
+  cases h with
+  | nil => simp [Acc.accumulateIn]
+  | cons hab ht =>
+    have hlen := ht.length_eq
+    simp only [Acc.accumulateIn, List.length_cons, hlen]
+    exact accumulateLoopIn_congr _ _ (forall2_zip_same _ _ _ ht) _ _ hab
+
+/-- The scalar side of `multi_prepare`, operation by operation: the power vectors
+(`utils.rs: powers` vs `arithmetic.rs: powers`), the `x1`-combined evaluation sets
+(`evals_inner_product`), `v` (`inner_product(evals, powers(x4))`) and the denominator of an
+`f_eval` step are the same in-circuit and off-circuit, for all inputs. (Not mechanised: that
+`evaluate_interpolated_polynomial` equals `eval_polynomial ∘ lagrange_interpolate`, and the
+assembly of these pieces along `multi_prepare`; both are compared on every run — `off=1` of the
+`gadget-verify` lines.) -/
+theorem in_circuit_multiopen_scalars_eq_off_circuit (x : K) (n : ℕ) (hn : 1 ≤ n) (evalsSet : List (List K))
+    (scalars es : List K) (x3 p0 : K) (ps : List K) :
+    gPowers x n = C14.powersN x n 1 ∧
+      gEvalsInnerProduct evalsSet scalars = C14.evalsInnerProduct evalsSet scalars ∧
+      gInnerProductF es (gPowers x es.length) = C14.innerProductScalars es x ∧
+      ps.foldl (fun d pt => d * (x3 - pt)) (x3 - p0) = (p0 :: ps).foldl (fun a p => a * (x3 - p)) 1 :=
+  ⟨gPowers_eq x n hn, gEvalsInnerProduct_eq evalsSet scalars, gInnerProductF_eq x es, den_eq x3 p0 ps⟩
+
+end Verify
 
 end MidnightZK.C20
